@@ -20,8 +20,8 @@ RULE = (
     "probit, affine, periodic wrap, combinations) x proposal (analytic normal wider than the posterior, optionally leaking mass "
     "outside the box; logit-normal or uniform supported on the box) x namespace x N x schedule (adaptive / fixed). Each case runs R "
     "independent replicates (quick 32, thorough 96; seeds drawn by Hypothesis). Oracle: replicate mean of Zhat/Z within "
-    "7 sd/sqrt(R) + 4/N of 1 (closed-form Z from normal CDFs / Bessel I0); replicate-averaged posterior mean and variance "
-    "(circular mean and resultant length for the periodic target) within 7 SE + 4 sd/N of the closed form (scipy truncnorm / I1/I0); "
+    "7 sd/sqrt(R) + 4/ESS of 1 (ESS = median over replicates of the smallest effective sample size met during the run; closed-form Z from normal CDFs / Bessel I0); replicate-averaged posterior mean and variance "
+    "(circular mean and resultant length for the periodic target) within 7 SE + 4 sd/ESS of the closed form (scipy truncnorm / I1/I0); "
     "no returned SMC sample may lie outside the prior support. "
     "A failing case is re-run with 4R fresh replicates and only reported if it fails again. "
     "Non-trivial = sampler is SMC or preconditioning != none, with posterior != proposal; distinct = distinct case hash."
@@ -32,6 +32,7 @@ ASSUMPTIONS = [
     "kernel packages are harness doubles (symmetric random-walk Metropolis, invariant for whatever target it is handed)",
     "proposals are at least 1.6x wider than the posterior in every dimension so importance weights have finite variance",
     "runs raising the documented 'contains NaN values' ValueError are dropped (counted); a case with >25% dropped replicates is skipped",
+    "cases whose particle system degenerates (median smallest ESS < 12) are skipped and counted: Monte-Carlo error is not meaningful there",
     "BlackJAX SMC cannot run; flow-based preconditioning is exercised in the thorough tier only if time allows (not in this version)",
 ]
 
@@ -204,8 +205,13 @@ def _one_run(case, T, seed):
     minipcn.reset(); emcee.reset()
     minipcn.step_budget = 300
     np.random.seed(seed % 2**32)
+    hist = None
+    if case["sampler"] != "importance":
+        kw["return_history"] = True
     try:
         s = a.sample_posterior(**kw)
+        if isinstance(s, tuple):
+            s, hist = s
     except ValueError as e:
         if "NaN values" in str(e):
             return None
@@ -221,8 +227,10 @@ def _one_run(case, T, seed):
     if case["sampler"] == "importance":
         w = env.to_np(s.weights).astype(np.float64)
         w = w / w.sum()
+        ess_min = float(1.0 / np.sum(w**2))
     else:
         w = np.full(len(x), 1.0 / len(x))
+        ess_min = float(min(float(env.to_np(e)) for e in hist.ess)) if hist is not None and len(hist.ess) else float(len(x))
     if case["target"] == "circle":
         ang = x[:, 0]
         C, S = float(np.sum(w * np.cos(ang - T.m))), float(np.sum(w * np.sin(ang - T.m)))
@@ -231,7 +239,7 @@ def _one_run(case, T, seed):
         mean = (w[:, None] * x).sum(0)
         var = (w[:, None] * (x - mean) ** 2).sum(0)
         stats_ = list(mean) + list(var)
-    return {"ratio": math.exp(lz - T.logZ), "stats": stats_, "c": c_in, "outside": outside}
+    return {"ratio": math.exp(lz - T.logZ), "stats": stats_, "c": c_in, "outside": outside, "ess_min": ess_min}
 
 
 def _evaluate(case, T, R, seed0):
@@ -243,9 +251,11 @@ def _evaluate(case, T, R, seed0):
         return None
     ratios = np.array([r["ratio"] for r in ok])
     st_ = np.array([r["stats"] for r in ok])
-    n = case["n"]
+    # finite-sample bias of importance / SMC estimators scales with 1 / (smallest effective sample size met on the way)
+    ess_eff = float(np.median([r["ess_min"] for r in ok]))
+    n = max(min(case["n"], ess_eff), 1.0)
     Rk = len(ok)
-    out = {"R": Rk, "dropped": R - Rk, "c": ok[0]["c"], "problems": []}
+    out = {"R": Rk, "dropped": R - Rk, "c": ok[0]["c"], "problems": [], "ess_eff": ess_eff}
     n_out = sum(r["outside"] for r in ok)
     if n_out:
         out["problems"].append(("samples-outside-prior-support", f"{n_out} of {Rk * n} returned posterior samples lie outside the prior's support "
@@ -290,6 +300,10 @@ def run_case(case, ctx):
     res = _evaluate(case, T, R, case["seed"])
     if res is None:
         return {"nontrivial": False, "labels": labels + ["skipped:too-many-NaN-rejections"]}
+    if res["ess_eff"] < 12:
+        # the particle system degenerates (e.g. uniform proposal in 4-D against a narrow likelihood with 3 fixed steps):
+        # "up to Monte-Carlo error" has no usable meaning there
+        return {"nontrivial": False, "labels": labels + ["skipped:degenerate-ESS<12"]}
     problems = list(res["problems"])
     leak_smc = case["sampler"] != "importance" and res["c"] < 1.0 - 1e-9
     ev_bad = abs(res["ratio"] - 1.0) > res["ratio_tol"]
